@@ -450,31 +450,38 @@ def suffix (r : Str) : Bool × Str :=
     else (false, r)
   | _ => (false, r)
 
-/-- `NEXT_TAG_OPERATION_RE.match` and the name handling that follows: (`//`?, axis, tag name, rest).
-    (`[/]{1,2}` never needs to give a slash back: a tag name cannot start with one.) -/
+/-- `^[ \t]*(?P<lead_in>[/]{1,2})`: (is it `//`, rest).  (`[/]{1,2}` never needs to give a slash back: a tag
+    name cannot start with one.) -/
+def leadIn (s : Str) : Option (Bool × Str) :=
+  match skipSp s with
+  | '/' :: r =>
+    match r with
+    | '/' :: r' => some (true, r')
+    | _ => some (false, r)
+  | _ => none
+
+/-- `(?P<full_tag>…)` up to the tag name: with an axis when one of the alternatives, `::` and a tag name
+    follow, else the bare tag name; (axis, tag name, rest). -/
+def tagCore (u : Str) : Option (Option AxisTok × Str × Str) :=
+  match axisName u AxisTok.all with
+  | some (a, n, rest) => some (some a, n, rest)
+  | none =>
+    match tagName u with
+    | some (n, rest) => some (none, n, rest)
+    | none => none
+
+/-- `thisTagName` after `.lower()` and the `node()` rule. -/
+def finalName (n : Str) (isNode : Bool) : Str :=
+  if isNode && lower n = ['c', 'h', 'i', 'l', 'd'] then ['*'] else lower n
+
+/-- `NEXT_TAG_OPERATION_RE.match` and the name handling that follows: (`//`?, axis, tag name, rest). -/
 def tagOp (s : Str) : Option (Bool × Option AxisTok × Str × Str) :=
-  let lead : Option (Bool × Str) :=
-    match skipSp s with
-    | '/' :: '/' :: r => some (true, r)
-    | '/' :: r => some (false, r)
-    | _ => none
-  match lead with
+  match leadIn s with
   | none => none
   | some (dbl, r) =>
-    let u := skipSp r
-    let core : Option (Option AxisTok × Str × Str) :=
-      match axisName u AxisTok.all with
-      | some (a, n, rest) => some (some a, n, rest)
-      | none =>
-        match tagName u with
-        | some (n, rest) => some (none, n, rest)
-        | none => none
-    match core with
+    match tagCore (skipSp r) with
     | none => none
-    | some (ax, n, rest) =>
-      let (isNode, rest') := suffix rest
-      let name := lower n
-      some (dbl, ax, if isNode && name = ['c', 'h', 'i', 'l', 'd'] then ['*'] else name, rest')
+    | some (ax, n, rest) => some (dbl, ax, finalName n (suffix rest).1, (suffix rest).2)
 
 /-- The bracket handling after a tag operation: while a `[…]` follows and its stripped inner text is not
     empty, one body per bracket; an empty `[]` is consumed and ends the list; (bodies, remaining text). -/
